@@ -19,13 +19,17 @@
 (* (uniform records of harness/drive.py).                                   *)
 EXTENDS Naturals, Integers, Sequences, FiniteSets
 
+CONSTANT GiveUp    \* units from the first transmission of a confirmable message to the instant it is given up
+                   \* when neither ACK nor Reset arrives (exact for ACK_RANDOM_FACTOR = 1; a value beyond every
+                   \* horizon where the schedule acknowledges everything in time)
+
 Has(f, k) == k \in DOMAIN f
 Put(f, k, v) == [x \in (DOMAIN f) \cup {k} |-> IF x = k THEN v ELSE f[x]]
 Max(a, b) == IF a > b THEN a ELSE b
 
 ObsInit == [ item |-> << >>,   \* id -> [r, ready (time), seq (order of readiness), tx (time or -1), con, failed]
              bytok |-> << >>,  \* <<r, tok>> -> item id of the response expected for that request
-             ex   |-> << >>,   \* <<r, mid>> -> [open, dig]     confirmable exchanges
+             ex   |-> << >>,   \* <<r, mid>> -> [open, dig, first]     confirmable exchanges
              freeAt |-> << >>, \* r -> instant the remote last became free
              n    |-> 0,
              bad  |-> {} ]
@@ -36,8 +40,23 @@ FlagIf(o, cond, c) == IF cond THEN Flag(o, c) ELSE o
 Qid(q) == <<"q", q>>
 Iid(i) == <<"i", i>>
 
+\* an exchange that has been open for GiveUp units is given up: the endpoint is free again, and what was held back
+\* behind it is dropped -- requests among it must fail (their done event says so), responses to the silent peer are
+\* not owed any more
+Expired(o, t) == {k \in DOMAIN o.ex : o.ex[k].open /\ o.ex[k].first + GiveUp <= t}
+Expire(o, t) ==
+  LET ks == Expired(o, t)
+      rs == {k[1] : k \in ks}
+      At(r) == LET k == CHOOSE k \in ks : k[1] = r IN o.ex[k].first + GiveUp
+  IN IF ks = {} THEN o
+     ELSE [o EXCEPT !.ex = [k \in DOMAIN @ |-> IF k \in ks THEN [@[k] EXCEPT !.open = FALSE] ELSE @[k]],
+                    !.freeAt = [r \in (DOMAIN @) \cup rs |-> IF r \in rs THEN At(r) ELSE @[r]],
+                    !.item = [id \in DOMAIN @ |->
+                                IF @[id].r \in rs /\ @[id].ready >= 0 /\ @[id].ready <= At(@[id].r) /\ @[id].tx < 0
+                                  THEN [@[id] EXCEPT !.dropped = TRUE] ELSE @[id]]]
+
 NewItem(o, id, r, t) ==
-  [o EXCEPT !.item = Put(@, id, [r |-> r, ready |-> t, seq |-> o.n + 1, tx |-> -1, con |-> FALSE, failed |-> FALSE]),
+  [o EXCEPT !.item = Put(@, id, [r |-> r, ready |-> t, seq |-> o.n + 1, tx |-> -1, con |-> FALSE, failed |-> FALSE, dropped |-> FALSE]),
             !.n = @ + 1]
 
 ObsSubmit(o, e) == NewItem(o, Qid(e.q), e.r, e.t)
@@ -49,7 +68,7 @@ ObsCall(o, e) ==
   LET k == <<e.r, e.tok>>
       o1 == IF Has(o.bytok, k) /\ o.item[o.bytok[k]].tx < 0 THEN [o EXCEPT !.item[o.bytok[k]].failed = TRUE] ELSE o
   IN [o1 EXCEPT !.bytok = Put(@, k, Iid(e.inv)),
-                !.item = Put(@, Iid(e.inv), [r |-> e.r, ready |-> -1, seq |-> 0, tx |-> -1, con |-> FALSE, failed |-> FALSE])]
+                !.item = Put(@, Iid(e.inv), [r |-> e.r, ready |-> -1, seq |-> 0, tx |-> -1, con |-> FALSE, failed |-> FALSE, dropped |-> FALSE])]
 
 ObsRelease(o, e) ==
   IF Has(o.item, Iid(e.inv)) /\ o.item[Iid(e.inv)].ready < 0 /\ e.x \in {"ok", "nocode"}
@@ -68,12 +87,14 @@ ObsFirstTx(o, e, id) ==
                 o2 == FlagIf(o1, OpenTo(o, it.r) # {}, "C14_OneOpen")
                 o3 == FlagIf(o2, later # {}, "C14_Fifo")
                 o4 == FlagIf(o3, later = {} /\ e.t # Max(it.ready, FreeAt(o, it.r)), "C14_AsSoonAs")
-            IN [o4 EXCEPT !.ex = Put(@, <<e.r, e.mid>>, [open |-> TRUE, dig |-> e.dig])]
+            IN [o4 EXCEPT !.ex = Put(@, <<e.r, e.mid>>, [open |-> TRUE, dig |-> e.dig, first |-> e.t])]
      ELSE IF e.ty = "NON" THEN FlagIf(o1, e.t # it.ready, "C14_AsSoonAs")
      ELSE o1        \* a piggy-backed response: not a message of its own at this layer
 
 ObsTx(o, e) ==
-  IF e.cls = "req" /\ e.q # 0 /\ Has(o.item, Qid(e.q)) /\ o.item[Qid(e.q)].tx < 0
+  \* a further copy of a confirmable message seen before is no item's first transmission
+  IF e.ty = "CON" /\ Has(o.ex, <<e.r, e.mid>>) /\ o.ex[<<e.r, e.mid>>].dig = e.dig THEN o
+  ELSE IF e.cls = "req" /\ e.q # 0 /\ Has(o.item, Qid(e.q)) /\ o.item[Qid(e.q)].tx < 0
     THEN ObsFirstTx(o, e, Qid(e.q))
   ELSE IF e.cls = "resp" /\ Has(o.bytok, <<e.r, e.tok>>)
           /\ o.item[o.bytok[<<e.r, e.tok>>]].tx < 0 /\ o.item[o.bytok[<<e.r, e.tok>>]].ready >= 0
@@ -90,10 +111,12 @@ ObsDone(o, e) ==
   IF Has(o.item, Qid(e.q)) /\ e.cls # "resp" THEN [o EXCEPT !.item[Qid(e.q)].failed = TRUE] ELSE o
 
 ObsEnd(o, e) ==
-  FlagIf(o, \E id \in DOMAIN o.item : o.item[id].ready >= 0 /\ o.item[id].tx < 0 /\ ~o.item[id].failed,
+  FlagIf(o, \E id \in DOMAIN o.item : /\ o.item[id].ready >= 0 /\ o.item[id].tx < 0 /\ ~o.item[id].failed
+                                        /\ ~(id[1] = "i" /\ o.item[id].dropped),
          "C14_NoneForgotten")
 
-ObsEvent(o, e) ==
+ObsEvent(o0, e) ==
+  LET o == Expire(o0, e.t) IN
   CASE e.k = "submit"  -> ObsSubmit(o, e)
     [] e.k = "call"    -> ObsCall(o, e)
     [] e.k = "release" -> ObsRelease(o, e)
